@@ -116,6 +116,7 @@ func actionCI(ctx context.Context, c *cli.Command) error {
 	if err != nil {
 		return err
 	}
+	verifEntries(entries)
 
 	ctx = context.WithValue(ctx, config.CommandKey, config.CICommand)
 
@@ -271,6 +272,7 @@ func actionCI(ctx context.Context, c *cli.Command) error {
 
 	summary.SortReports()
 	summary.Dedup()
+	verifSummary(summary)
 	for _, rep := range reps {
 		err = rep.Submit(summary)
 		if err != nil {
